@@ -652,6 +652,9 @@ impl<'a> Parser<'a> {
         let mut duration: ParsedDuration = ParsedDuration::new();
         let mut got_t: bool = false;
         let mut last_had_fraction = false;
+        // Position of the last designator seen in PnYnMnDTnHnMnS (PnW stands alone),
+        // designators must appear in that order and at most once
+        let mut last_unit: u8 = 0;
 
         loop {
             match self.current {
@@ -662,7 +665,14 @@ impl<'a> Parser<'a> {
                         );
                     }
 
+                    if last_unit > 3 {
+                        return Err(self.parse_error(
+                            "Week format durations cannot have a time".to_string(),
+                        ));
+                    }
+
                     got_t = true;
+                    last_unit = 4;
                 }
                 _c => {
                     let (value, op_fraction) = self.parse_duration_number_frac()?;
@@ -677,15 +687,13 @@ impl<'a> Parser<'a> {
                     if got_t {
                         match self.current {
                             'H' => {
-                                if duration.minutes != 0
-                                    || duration.seconds != 0
-                                    || duration.microseconds != 0
-                                {
+                                if last_unit >= 5 {
                                     return Err(
                                         self.parse_error("Duration units out of order".to_string())
                                     );
                                 }
 
+                                last_unit = 5;
                                 duration.hours += value;
 
                                 if let Some(fraction) = op_fraction {
@@ -695,12 +703,13 @@ impl<'a> Parser<'a> {
                                 }
                             }
                             'M' => {
-                                if duration.seconds != 0 || duration.microseconds != 0 {
+                                if last_unit >= 6 {
                                     return Err(
                                         self.parse_error("Duration units out of order".to_string())
                                     );
                                 }
 
+                                last_unit = 6;
                                 duration.minutes += value;
 
                                 if let Some(fraction) = op_fraction {
@@ -710,6 +719,13 @@ impl<'a> Parser<'a> {
                                 }
                             }
                             'S' => {
+                                if last_unit >= 7 {
+                                    return Err(
+                                        self.parse_error("Duration units out of order".to_string())
+                                    );
+                                }
+
+                                last_unit = 7;
                                 duration.seconds = value;
 
                                 if let Some(fraction) = op_fraction {
@@ -734,12 +750,13 @@ impl<'a> Parser<'a> {
                                     ));
                                 }
 
-                                if duration.months != 0 || duration.days != 0 {
+                                if last_unit >= 1 {
                                     return Err(
                                         self.parse_error("Duration units out of order".to_string())
                                     );
                                 }
 
+                                last_unit = 1;
                                 duration.years = value;
                             }
                             'M' => {
@@ -750,21 +767,23 @@ impl<'a> Parser<'a> {
                                     ));
                                 }
 
-                                if duration.days != 0 {
+                                if last_unit >= 2 {
                                     return Err(
                                         self.parse_error("Duration units out of order".to_string())
                                     );
                                 }
 
+                                last_unit = 2;
                                 duration.months = value;
                             }
                             'W' => {
-                                if duration.years != 0 || duration.months != 0 {
+                                if last_unit != 0 {
                                     return Err(self.parse_error(
                                         "Basic format durations cannot have weeks".to_string(),
                                     ));
                                 }
 
+                                last_unit = 8;
                                 duration.weeks = value;
 
                                 if let Some(fraction) = op_fraction {
@@ -774,12 +793,17 @@ impl<'a> Parser<'a> {
                                 }
                             }
                             'D' => {
-                                if duration.weeks != 0 {
+                                if last_unit >= 3 {
                                     return Err(self.parse_error(
-                                        "Week format durations cannot have days".to_string(),
+                                        if last_unit == 8 {
+                                            "Week format durations cannot have days".to_string()
+                                        } else {
+                                            "Duration units out of order".to_string()
+                                        },
                                     ));
                                 }
 
+                                last_unit = 3;
                                 duration.days += value;
                                 if let Some(fraction) = op_fraction {
                                     duration
